@@ -15,6 +15,7 @@ FIXP = @@FIXP@@            # True: every skeleton entry is present (presence not
 FIXEXCL = @@FIXEXCL@@      # True: the matcher excludes nothing (verdicts not symbolic in this shard)
 FIXREV = @@FIXREV@@        # True: listing order as written (not symbolic in this shard)
 FIX = @@FIX@@              # argument name -> fixed value (absent: symbolic)
+PREFIXES = @@PREFIXES@@    # menu of explicit prefixes chosen by `which` when has_prefix (e.g. one that ends with the separator)
 SUBTRACT = @@SUBTRACT@@    # ids of known findings whose input region is subtracted from this obligation (normally empty)
 BASE = "/w/in"
 OUTS = ["/w/out", "/w/in/docs", "/w", "out"]      # absolute elsewhere, nested in the input tree, parent of it, relative to cwd
@@ -91,12 +92,15 @@ def _wf_root(present, excl, rev, excl_root, auto_ex) -> bool:
     return any(f.endswith(".cmake") and not excluded.get(pp.join(BASE, f), False) for f in dirs[BASE][1])
 
 
+_PFX = ["P"]
+
+
 def _settings(out, recursive, auto_ex, has_prefix, sep2, ext_t, ext_m):
     s = Settings()
     s.output.directory = out
     s.input.recursive = recursive
     s.input.auto_exclude_directories_without_cmake = auto_ex
-    s.rst.prefix = "P" if has_prefix else None
+    s.rst.prefix = _PFX[0] if has_prefix else None
     s.rst.module_path_separator = "::" if sep2 else "."
     s.rst.file_extensions_in_titles = ext_t
     s.rst.file_extensions_in_modules = ext_m
@@ -119,7 +123,7 @@ def _run(inp, settings):
 
 def _compare_tree(settings, dirs, excluded, out, recursive, auto_ex, has_prefix, sep2, ext_t, ext_m):
     sep = "::" if sep2 else "."
-    prefix = "P" if has_prefix else "in"
+    prefix = _PFX[0] if has_prefix else "in"
     outabs = None if out is None else pp.normpath(pp.join(VFS.cwd, out))
     pages, indexes, order = vfslib.spec_tree(dirs, excluded, BASE, outabs, recursive, auto_ex, prefix, sep, ext_t, ext_m)
     # the matcher is asked with the directory form for directories, the plain form for files
@@ -182,14 +186,16 @@ def check(present: List[bool], excl: List[bool], rev: List[bool], excl_root: boo
     """
     pre: _wf(present, excl, rev, excl_root, auto_ex) or (MODE == "closure" and _wf_root(present, excl, rev, excl_root, auto_ex))
     pre: _fixed(dict(recursive=recursive, auto_ex=auto_ex, has_prefix=has_prefix, sep2=sep2, out_i=out_i, ext_t=ext_t, ext_m=ext_m, excl_root=excl_root))
-    pre: 0 <= out_i < len(OUTS) and 0 <= which < max(1, len(FILES))
+    pre: 0 <= out_i < len(OUTS) and (MODE not in ("file", "fail") or 0 <= which < max(1, len(FILES)))
     pre: (len(rev2) == ND) if MODE == "rel" else (len(rev2) == 0 and (MODE == "hist" or not cwd2))
-    pre: MODE in ("file", "fail") or which == 0
+    pre: MODE in ("file", "fail") or (0 <= which < len(PREFIXES) and (has_prefix or which == 0))
     post: _
     """
     dirs, excluded = _tree(present, excl, rev, excl_root)
     out = None if MODE == "stdout" else OUTS[out_i]
     settings = _settings(out, recursive, auto_ex, has_prefix, sep2, ext_t, ext_m)
+    _PFX[0] = PREFIXES[which] if MODE not in ("file", "fail") else "P"
+    settings.rst.prefix = _PFX[0] if has_prefix else None
     VFS.reset(dirs, excluded)
     VFS.rel_verdict = relv        # read only if the code under test asks the matcher about a non-absolute path
     VFS.rel_verdict2 = relv2
